@@ -131,14 +131,14 @@ def run(rep, tier="quick", replay=None, evidence_dir=None):
             if len(io) == 1:
                 sw = shape.call_bool_switch(rdv, io[0][0])
                 if sw:
-                    okp = shape.only_err(rdv, edge_only_region(rdv, sw[0], sw[1]))
+                    okp = shape.edge_must_err(rdv, sw[0], sw[1])
         rep.ob("C11.R1", "resolve_default_value: a default that does not resolve is an error", okp, "", rdv.loc())
         anyc = one_call(rdv, "std::iter::Iterator::any")
         oku = False
         if anyc is not None:
             sw = shape.call_bool_switch(rdv, anyc[0])
             if sw:
-                oku = shape.only_err(rdv, edge_only_region(rdv, sw[0], sw[1]))
+                oku = shape.edge_must_err(rdv, sw[0], sw[1])
         rep.ob("C11.R1", "resolve_default_value: a union default that resolves against no branch is an error", oku, "", rdv.loc())
 
     # ------------------------------------------------------------------ parse_enum
@@ -307,6 +307,51 @@ def run(rep, tier="quick", replay=None, evidence_dir=None):
             okr = bool(sw) and fr.dominates(sw[2], refs[0][0]) and edge_only_region(fr, sw[0], sw[2]) is not None
         rep.ob("C11.R1", "fetch_schema_ref: a bare reference is returned only for a name that is already defined", okr, "", fr.loc())
     rep.floor("C11.R1", "gate obligations", len([o for o in rep.obligations if o["rule"] == "C11.R1"]), 30)
+
+    # ------------------------------------------------------------------ R4 namespace threading
+    rep.rule("C11.R4", "inside the parser every nested parse receives a namespace derived from the caller's enclosing namespace (or from a parsed name), never a fresh None, except where an input schema starts a new top-level parse")
+    NS_ALLOW_NONE = {"schema::parser::Parser::fetch_schema_ref": "an input schema parsed on demand is a top-level schema: it does not inherit the referrer's namespace (C20.R5)",
+                     "schema::parser::Parser::parse_input_schemas": "top-level input", "schema::parser::Parser::parse_str": "top-level schema",
+                     "schema::Schema::parse": "top-level schema", "schema::Schema::parse_with_names": "top-level schema", "schema::Schema::parse_str_with_list": "top-level schema"}
+
+    def ns_param(body):
+        for i in range(1, body.argc + 1):
+            if body.local_name(i) == "enclosing_namespace":
+                return i
+        return None
+    n4 = 0
+    for k, b in sorted(prog.bodies.items()):
+        if b.crate != "apache_avro" or not (k.startswith("schema::parser::") or k.startswith("schema::record::field::RecordField::parse") or k.startswith("schema::name::Name::parse")):
+            continue
+        owner = b if b.kind != "Closure" else prog.bodies.get(b.parent, b)
+        for bi, t in b.calls():
+            cal = None
+            for nme in reversed(callee_names(t["func"])):
+                if nme in prog.bodies and prog.bodies[nme].kind != "Closure":
+                    cal = prog.bodies[nme]
+                    break
+            if cal is None:
+                continue
+            pi = ns_param(cal)
+            if pi is None or pi - 1 >= len(t["args"]):
+                continue
+            if not (cal.path.startswith("schema::parser::") or cal.path.endswith(("::parse", "::new_with_enclosing_namespace"))):
+                continue   # formatting helpers (fullname, fully_qualified_name) take a namespace but define nothing
+            n4 += 1
+            a = t["args"][pi - 1]
+            desc = b.opdesc(a)
+            is_none = False
+            if a.get("k") in ("copy", "move"):
+                sd = b.single_def(op_local(a))
+                is_none = bool(sd and sd[2] == "assign" and sd[3]["r"] == "agg" and sd[3].get("adt") == "std::option::Option" and sd[3].get("variant") == "None")
+            who = owner.path
+            if is_none:
+                rep.ob("C11.R4", "%s -> %s passes a derived namespace" % (who, cal.path.split("::")[-1]), who in NS_ALLOW_NONE,
+                       "a nested definition parsed with no enclosing namespace loses the namespace it should inherit: its full name (and everything derived from it: references, canonical form, fingerprints) changes", b.loc(bi))
+            else:
+                rep.ob("C11.R4", "%s -> %s passes a derived namespace" % (who, cal.path.split("::")[-1]), who not in ("schema::parser::Parser::fetch_schema_ref", "schema::parser::Parser::parse_input_schemas") or cal.path.endswith("new_with_enclosing_namespace"),
+                       "an input schema is a top-level schema and must be parsed without the referrer's namespace (passes %s)" % desc, b.loc(bi))
+    rep.floor("C11.R4", "nested parse calls with a namespace argument", n4, 20)
 
     # ------------------------------------------------------------------ R2 (import C20.R3)
     import c20
